@@ -293,7 +293,10 @@ func allShapes() []TV {
 	out = append(out, tvSlice("[]json.Number", tvJSON("7")), tvSlice("[]bool", tvBool(true)))
 	out = append(out, tvList(), TV{T: "[]interface{}", Nil: true}, tvList(fitInt("int", 7), tvStr("abc")), tvList(tvNil(), fitInt("int", 1)),
 		tvList(fitInt("int", 1), tvNil()), tvList(tvFloat("float64", 3.7)), tvList(tvList(fitInt("int", 1))), tvList(tvBool(true)), tvList(tvStr("1:3")),
-		tvList(tvSlice("[]int", fitInt("int", 1))), tvList(tvJSON("7"), tvFloat("float32", 7)))
+		tvList(tvSlice("[]int", fitInt("int", 1))), tvList(tvJSON("7"), tvFloat("float32", 7)),
+		// adjacent elements of the same uncomparable dynamic type (a JSON list of objects / of lists), equal scalars in a row
+		tvList(TV{T: "other:map"}, TV{T: "other:map"}), tvList(fitInt("int", 2), tvList(fitInt("int", 1)), tvList(fitInt("int", 2))),
+		tvList(fitInt("int", 7), fitInt("int", 7), tvStr("abc"), tvStr("abc")), tvList(TV{T: "other:func"}, TV{T: "other:func"}))
 	out = append(out, TV{T: "[2]int64", L: []TV{tvInt("int64", 5), tvInt("int64", 9)}}, TV{T: "[2]int", L: []TV{tvInt("int", 5), tvInt("int", 9)}}, TV{T: "[3]string"})
 	out = append(out, TV{T: "[][]int"}, TV{T: "[][]int", Nil: true})
 	for _, k := range []string{"map", "ptr", "chan", "func"} {
